@@ -412,6 +412,22 @@ func coreCase(rep *hx.Report, seed int64, fo force) {
 			mu.Unlock()
 		}
 	}
+	// the engine's serial Async queue (close notifications, Stop's closes) with a long history behind it: more than 1024
+	// calls pending at once behind a blocked one, drained before the history goes on (drawn from r2)
+	if r2.Intn(3) == 0 {
+		gate := make(chan struct{})
+		var ran int64
+		g.Async(func() { <-gate })
+		nb := 1025 + r2.Intn(600)
+		for k := 0; k < nb; k++ {
+			g.Async(func() { atomic.AddInt64(&ran, 1) })
+		}
+		close(gate)
+		for w := 0; w < 400 && atomic.LoadInt64(&ran) < int64(nb); w++ {
+			time.Sleep(5 * time.Millisecond)
+		}
+		h.Steps = append(h.Steps, fmt.Sprintf("async-backlog-%d-drained(%d ran)", nb, atomic.LoadInt64(&ran)))
+	}
 	closeBlackhole := func() {}
 	// asynchronous dials that are still PENDING when Stop begins: a listening socket with backlog 0 that never accepts takes
 	// one connection and drops the further SYNs, so the connects stay in progress (drawn from r2: corpus seeds unchanged)
